@@ -25,8 +25,10 @@ EXPLANATION = (
     "without STRIP_BRACKETS, against an RFC 3986 3.2 reference: same accept/refuse, same userinfo / host / port, host denotation (stored text + had-brackets bit) equal to the host as "
     "written, public flags untouched, every copy inside the authority and inside its allocation. H (host setter): evhttp_uri_set_host over host forms x public flags x prior host state; "
     "evhttp_uri_set_flags keeps the internal bit; who may write uri->flags. "
-    "Declined: that evhttp_uri_parse_with_flags splits every input string as RFC 3986 does (decided here for the authority on a family of forms, not for all strings; scheme / path / "
-    "query / fragment splitting is not evaluated), the UNIX_SOCKET and NONCONFORMANT forms.")
+    "U (whole parser): evhttp_uri_parse_with_flags is evaluated on a family of URI-reference forms (absolute, network-path, absolute-path, rootless, empty; every component present / "
+    "absent / empty; colons, double slashes and escapes in the places where RFC 3986 treats them specially; invalid forms) with and without STRIP_BRACKETS, and on the unix-socket forms "
+    "of EVHTTP_URI_UNIX_SOCKET, against an RFC 3986 reference: same accept / refuse, same seven components (plus the socket path). J also covers unix-socket component sets. "
+    "Declined: equality with RFC 3986 on ALL strings (the families are finite), the NONCONFORMANT mode.")
 ASSUMPTIONS = ["EVUTIL_IS*_ agree with ASCII (C41)", "evutil_inet_pton accepts exactly valid IPv6 texts (C40)"]
 
 UNRESERVED = set(b"ABCDEFGHIJKLMNOPQRSTUVWXYZabcdefghijklmnopqrstuvwxyz0123456789-._~")
@@ -213,13 +215,16 @@ def rule_join(P):
     ports = [-1, 0, 80, 65535]
     paths = [None, b"", b"/p/q", b"p", b"//x/y", b"a:b/c", b"/"]
     qf = [(None, None), (b"k=v", None), (None, b"top"), (b"", b"")]
-    for scheme, (host, hflags), user, port, path, (query, frag) in itertools.product(schemes, hosts, users, ports, paths, qf):
-        if host is None and (user is not None or port != -1):
+    combos = [c + (None,) for c in itertools.product(schemes, hosts, users, ports, paths, qf)]
+    # unix-socket URIs (EVHTTP_URI_UNIX_SOCKET): the socket path takes the host's place; socket paths as the parser can produce them (no colon)
+    combos += [(sc, (None, 0), us, -1, pa, q_f, sock) for sc in schemes for us in users for pa in paths for q_f in qf for sock in (b"/run/control.sock", b"sock", b"a:b", b"/x@y")]
+    for scheme, (host, hflags), user, port, path, (query, frag), sock in combos:
+        if host is None and sock is None and (user is not None or port != -1):
             continue          # userinfo/port without a host are not components of any URI: outside the domain (join drops them)
         env = {"#typed": 1, f.params[0][0]: PPtr("u"), f.params[1][0]: 7777, f.params[2][0]: 4096, "event_debug_logging_mask_": 0, ("@", "u", "#zero"): 1,
                U("scheme"): PStr(scheme) if scheme is not None else 0, U("host"): PStr(host) if host is not None else 0, U("userinfo"): PStr(user) if user is not None else 0,
                U("port"): port, U("path"): PStr(path) if path is not None else 0, U("query"): PStr(query) if query is not None else 0, U("fragment"): PStr(frag) if frag is not None else 0,
-               U("unixsocket"): 0, U("flags"): hflags, "#out": b""}
+               U("unixsocket"): PStr(sock) if sock is not None else 0, U("flags"): hflags, "#out": b""}
 
         def hook(el, e_):
             n = callee_name(el.e)
@@ -274,17 +279,25 @@ def rule_join(P):
             joined = o.env.get("#result") if rv == 7777 else None
             comps = {"scheme": scheme, "userinfo": user, "host": (b"[" + host + b"]") if (host is not None and hflags & BR) else host, "port": port, "path": path if path is not None else b"",
                      "query": query, "fragment": frag}
-            r.inst((scheme, host, hflags, user, port, path, query, frag), {"components": {k: (v.decode() if isinstance(v, bytes) else v) for k, v in comps.items()},
+            if sock is not None:
+                comps["unixsocket"] = sock
+            r.inst((scheme, host, hflags, user, port, path, query, frag, sock), {"components": {k: (v.decode() if isinstance(v, bytes) else v) for k, v in comps.items()},
                                                                         "joined": joined.rstrip(b"\0").decode("latin-1") if joined else None}, nontrivial=joined is not None)
             if joined is None:
                 continue
-            back = rfc3986_split(joined.rstrip(b"\0"))
-            diff = [k for k in comps if back[k] != comps[k]]
+            if sock is not None:
+                back = ref_unix_uri(joined.rstrip(b"\0"))
+                if back is None or "unixsocket" not in back:
+                    back = dict((k, None) for k in comps)
+                    back["unparsable"] = True
+            else:
+                back = rfc3986_split(joined.rstrip(b"\0"))
+            diff = [k for k in comps if back.get(k) != comps[k]]
             if diff and nb < 8:
                 nb += 1
                 k0 = diff[0]
                 r.bad("K6:evhttp_uri_join:%s" % ("path-read-as-authority" if path is not None and path.startswith(b"//") and host is None else
-                                                   ("path-read-as-scheme" if scheme is None and host is None and path and b":" in path.split(b"/")[0] else "component:%s" % k0)),
+                                                   ("path-read-as-scheme" if scheme is None and host is None and sock is None and path and b":" in path.split(b"/")[0] else ("unix:%s" % k0 if sock is not None else "component:%s" % k0))),
                       "%s:%d" % (f.file, f.line), f.name,
                       "components %s are joined into %r, which RFC 3986 splits into %s: %s differs (join must refuse what it cannot write unambiguously)" % (
                           {k: v for k, v in comps.items() if v not in (None, -1)}, joined.rstrip(b"\0"), {k: v for k, v in back.items() if v not in (None, -1)}, diff))
@@ -413,6 +426,141 @@ def rule_authority(P):
     return r
 
 
+PCHAR = rb"(?:[A-Za-z0-9\-._~!$&'()*+,;=:@]|%[0-9A-Fa-f]{2})"
+
+
+def ref_uri(t):
+    """RFC 3986 URI-reference (sections 3 and 4.2, Appendix B split) with libevent's port range -> dict of components, or None when t is not one"""
+    m = re.match(rb"^(([^:/?#]+):)?(//([^/?#]*))?([^?#]*)(\?([^#]*))?(#(.*))?$", t, re.S)
+    scheme, auth, path, query, frag = m.group(2), m.group(4), m.group(5), m.group(7), m.group(9)
+    if m.group(1) is not None and not re.match(rb"^[A-Za-z][A-Za-z0-9+.\-]*$", scheme):
+        # what precedes the first colon is not a scheme: a relative reference whose first segment would then hold a colon (4.2 forbids it) - unless a slash comes first
+        m2 = re.match(rb"^()()(//([^/?#]*))?([^?#]*)(\?([^#]*))?(#(.*))?$", t, re.S)
+        scheme, auth, path, query, frag = None, m2.group(4), m2.group(5), m2.group(7), m2.group(9)
+    d = {"scheme": scheme, "userinfo": None, "host": None, "port": -1, "path": path, "query": query, "fragment": frag}
+    if auth is not None:
+        a = ref_authority(auth)
+        if a is None:
+            return None
+        d["userinfo"], d["host"], d["port"] = a
+        if path and not path.startswith(b"/"):
+            return None
+    else:
+        if path.startswith(b"//"):
+            return None
+        if scheme is None and b":" in path.split(b"/")[0]:
+            return None
+    if not re.match(rb"^(?:" + PCHAR + rb"|/)*$", path):
+        return None
+    for x in (query, frag):
+        if x is not None and not re.match(rb"^(?:" + PCHAR + rb"|[/?])*$", x):
+            return None
+    return d
+
+
+URIS = [b"http://example.com/p?q#f", b"http://example.com", b"http://example.com/", b"http://u:p@example.com:8080/a/b?x=1&y=2#top", b"//example.com/p", b"/p/q", b"p/q", b"p", b"", b"?q", b"#f",
+        b"mailto:foo@bar", b"http:", b"http:/p", b"http:p", b"http://", b"http:///p", b"http://[::1]/", b"http://[::1]:80/x", b"http://[v1.x]/", b"ftp://h:21", b"a+b-c.d://h", b"1http://h/",
+        b"ht!tp://h/", b"://h/", b"http://h:65536/", b"http://h:x/", b"http://h h/", b"http://h/a b", b"http://h/a%20b", b"http://h/a%2", b"http://h/?a%zz", b"http://h/#a#b", b"http://h/?a?b",
+        b"http://h?q", b"http://h#f", b"a:b/c", b"a/b:c", b"./a:b", b"a%20b:c", b"/a:b", b"//h", b"//h:8", b"///p", b"http://u@h", b"http://@h", b"http://u@", b"http://[::1", b"http://h/p?", b"http://h/p#",
+        b"http://h/p?#", b"x://h/p//q", b"x:/", b"x:?q", b"x:#f", b"http://a@b@c/", b"/p?q#f", b"p?q", b":", b":x", b"/:", b"http://h:/p", b"http://h:0/", b"http://1.2.3.4:5/", b"http::p", b"x::", b"x:a:b", b"x://h::"]
+
+
+UNIX_URIS = [b"http://unix:/run/control.sock:/controller", b"http://unix:/tmp/sock:/path?q#f", b"http://u@unix:/tmp/sock:/p", b"http://unix:sock:/path", b"http://unix:/tmp/sock:", b"http://unix:a:",
+             b"http://unix:/tmp/sock", b"http://unix.example.com/p", b"http://unix:/tmp/sock:?q", b"http://unix:/tmp/sock:#f", b"http://unix:/a/b/c:/d/e", b"http://example.com/p?q#f", b"/p"]
+
+
+def ref_unix_uri(t):
+    """EVHTTP_URI_UNIX_SOCKET (http.h: "http://unix:/run/control.sock:/controller"): [scheme ":"] "//" [userinfo "@"] "unix:" socket-path ":" path-abempty ["?" query] ["#" fragment];
+    anything whose authority does not start with "unix:" is an ordinary URI reference"""
+    m = re.match(rb"^(?:([A-Za-z][A-Za-z0-9+.\-]*):)?//(?:([^@/?#]*)@)?unix:(.*)$", t, re.S)
+    if not m:
+        return ref_uri(t)
+    scheme, user, rest = m.groups()
+    if b":" not in rest:
+        return None
+    sock, rest = rest.split(b":", 1)
+    m = re.match(rb"^((?:/" + PCHAR + rb"*)*)(?:\?((?:" + PCHAR + rb"|[/?])*))?(?:#((?:" + PCHAR + rb"|[/?])*))?$", rest, re.S)       # path-abempty [ "?" query ] [ "#" fragment ]
+    if m is None:
+        return None
+    if user is not None and not re.match(rb"^(?:[A-Za-z0-9\-._~!$&'()*+,;=:]|%[0-9A-Fa-f]{2})*$", user):
+        return None
+    return {"scheme": scheme, "userinfo": user, "host": None, "port": -1, "path": m.group(1), "query": m.group(2), "fragment": m.group(3), "unixsocket": sock}
+
+
+def rule_parse(P):
+    r = Rule("C28-parse", "K6", "evhttp_uri_parse_with_flags accepts exactly the RFC 3986 URI references of a family of forms and stores exactly their components (scheme, userinfo, host, port, path, query, fragment)", floor=100)
+    f = P.fn("evhttp_uri_parse_with_flags")
+    K = uri_consts(P)
+    if "_EVHTTP_URI_HOST_HAS_BRACKETS" not in K or "EVHTTP_URI_HOST_STRIP_BRACKETS" not in K:
+        r.brk("URI flag constants not found")
+        return r
+    BR, STRIP = K["_EVHTTP_URI_HOST_HAS_BRACKETS"], K["EVHTTP_URI_HOST_STRIP_BRACKETS"]
+    U = lambda fl: ("@", "u", "evhttp_uri.%s" % fl)
+    nb = 0
+    UNIX = K.get("EVHTTP_URI_UNIX_SOCKET")
+    if UNIX is None:
+        r.brk("EVHTTP_URI_UNIX_SOCKET not found")
+        return r
+    for text, flags in [(t, fl) for t in URIS for fl in (0, STRIP)] + [(t, UNIX) for t in UNIX_URIS]:
+        if True:
+            env = {"#typed": 1, "#bytemem": 1, "event_debug_logging_mask_": 0, f.params[0][0]: MEM0, f.params[1][0]: flags}
+            mem_put(env, MEM0, text)
+
+            def extra(el, e_):
+                n = callee_name(el.e)
+                if n == "event_mm_calloc_":
+                    e_[("@", "u", "#zero")] = 1
+                    return PPtr("u")
+                if n == "evhttp_uri_free":
+                    e_["#freed"] = 1
+                    return 0
+                return None
+            outs = [o for o in run_all(f, (f.entry, 0), env, lambda el: False, P, mem_hook(P, extra), max_steps=20000) if not (o.kind == "exit" and o.why == "noreturn")]
+            want = ref_unix_uri(text) if flags & UNIX else ref_uri(text)
+            if want is not None:
+                want.setdefault("unixsocket", None)
+            for o in outs:
+                if o.kind != "ret":
+                    r.brk("evhttp_uri_parse_with_flags(%r): %s %s %s" % (text, o.kind, o.why, o.env.get("#err", "")))
+                    return r
+                try:
+                    rv = evalx(normx(o.at.e[1]), o.env, P)
+                except EvalError as ex:
+                    r.brk("evhttp_uri_parse_with_flags(%r): return value: %s" % (text, ex))
+                    return r
+                e_ = o.env
+                ok = isinstance(rv, PPtr)
+                got = None
+                if ok:
+                    def S(fl):
+                        a = e_.get(U(fl), 0)
+                        return mem_str(e_, a) if isinstance(a, int) and a else None
+                    fl = e_.get(U("flags"), 0)
+                    host = S("host")
+                    got = {"scheme": S("scheme"), "userinfo": S("userinfo"), "host": None if host is None else ((b"[" + host + b"]") if fl & BR else host), "port": e_.get(U("port"), -1), "path": S("path"),
+                           "query": S("query"), "fragment": S("fragment"), "unixsocket": S("unixsocket")}
+                r.inst((text, flags), {"uri": text.decode("latin-1"), "flags": flags, "accepted": ok, "components": None if got is None else {k: (v.decode("latin-1") if isinstance(v, bytes) else v) for k, v in got.items()}})
+                bad = None
+                if e_.get("#oob"):
+                    bad = ("out-of-bounds", e_["#oob"])
+                elif ok != (want is not None):
+                    bad = ("accepts", "%s; RFC 3986: %s" % ("accepted" if ok else "refused", "a URI reference with components %s" % want if want else "not a URI reference"))
+                elif ok:
+                    diff = [k for k in want if got[k] != want[k]]
+                    if diff:
+                        bad = ("component:%s" % diff[0], "stores %s; RFC 3986 components: %s (%s differ)" % ({k: v for k, v in got.items() if v not in (None, -1)}, {k: v for k, v in want.items() if v not in (None, -1)}, diff))
+                if bad and nb < 8:
+                    nb += 1
+                    r.bad("K6:evhttp_uri_parse_with_flags:%s" % bad[0], "%s:%d" % (f.file, f.line), f.name, "%r, flags %#x: %s" % (text, flags, bad[1]))
+    seen, uniq = set(), []
+    for f_ in r.findings:
+        if f_.key not in seen:
+            seen.add(f_.key)
+            uniq.append(f_)
+    r.findings = uniq
+    return r
+
+
 def rule_sethost(P):
     r = Rule("C28-sethost", "K6", "evhttp_uri_set_host: an accepted host is stored so that (host, brackets bit) denotes it, public flags untouched; a refused host changes nothing; evhttp_uri_set_flags keeps the brackets bit", floor=60)
     f = P.fn("evhttp_uri_set_host")
@@ -522,7 +670,7 @@ def rule_siblings(P):
 def run(ctx, config):
     P = ctx.prog(UNITS, config)
     rules = []
-    for mk in (rule_validators, rule_ports, rule_join, rule_authority, rule_sethost, rule_siblings):
+    for mk in (rule_validators, rule_ports, rule_join, rule_authority, rule_parse, rule_sethost, rule_siblings):
         try:
             rules.append(mk(P))
         except AnalysisBroken as ex:
